@@ -276,13 +276,16 @@ type syncStats struct {
 	byKind                               map[string]int64
 	dumpsCompared, histCompared          int64
 	restarts, gossiped, localBlocks      int64
+	rivals                               int64
 }
 
 // syncReplay replays one behaviour on a fresh follower and compares after every delivery.
 type syncOpts struct {
+	label     string // prefix of the evidence keys of this pass
 	warmViews bool // request historical views of every element before each delivery (C06: views requested before the switch)
 	gossip    bool // the account blocks of the batch reach the pool before the batch (C02)
 	restart   bool // the node is stopped and reopened between deliveries (C02: cold caches, across restarts)
+	rival     bool // before a delivery the node pools a RIVAL of the batch's first user block (same account, same height, other content)
 	local     bool // before a delivery the node pools a block of an otherwise idle account that acknowledges its current frontier
 }
 
@@ -378,7 +381,30 @@ func syncReplay(run *core.Run, tree *momTree, b *syncBehaviour, n int64, st *syn
 			}
 		}
 		defer func(si int) {}(si)
-		if o.gossip && (n+int64(si))%3 != 0 {
+		if o.rival && len(batch) > 0 {
+			for _, blk := range batch[0].AccountBlocks {
+				if blk.BlockType != nom.BlockTypeUserSend {
+					continue
+				}
+				var key *wallet.KeyPair
+				for _, k := range g.AllKeyPairs {
+					if k.Address == blk.Address {
+						key = k
+					}
+				}
+				if key == nil {
+					continue
+				}
+				if _, err := f.Submit(&nom.AccountBlock{BlockType: nom.BlockTypeUserSend, Address: key.Address, ToAddress: g.User6.Address,
+					TokenStandard: types.ZnnTokenStandard, Amount: big.NewInt(int64(1 + (n+int64(si))%50))}, key); err == nil {
+					st.mu.Lock()
+					st.rivals++
+					st.mu.Unlock()
+				}
+				break
+			}
+		}
+		if o.gossip && !o.rival && (n+int64(si))%3 != 0 {
 			for _, dm := range batch {
 				for _, blk := range dm.AccountBlocks {
 					c, _ := node.WireBlock(blk)
@@ -453,7 +479,7 @@ func syncReplay(run *core.Run, tree *momTree, b *syncBehaviour, n int64, st *syn
 				sawInvalid = true // the account blocks of a momentum that failed are valid gossip and may stay pooled
 			}
 		}
-		if np := len(f.Chain.GetAllUncommittedAccountBlocks()); np != 0 && !sawInvalid && !o.gossip && !o.local {
+		if np := len(f.Chain.GetAllUncommittedAccountBlocks()); np != 0 && !sawInvalid && !o.gossip && !o.local && !o.rival {
 			report("C06", "pool-not-empty", fmt.Sprintf("unconfirmed pool holds %d blocks, a node that only saw %v holds none", np, last.Chain))
 		}
 		if got := nextProducers(f, 12); got != wantProd {
@@ -594,19 +620,20 @@ func syncCheckP(run *core.Run, maxH, unit, maxRollback int, sampleEvery int64, o
 	}
 	st.behaviours = cnt
 	run.Traces += cnt
-	run.Set("sync_generated_transitions", total)
-	run.Set("sync_behaviours_replayed", cnt)
-	run.Set("sync_deliveries_replayed", st.deliveries)
-	run.Set("sync_outcomes(spec->node)", st.byErr)
-	run.Set("sync_invalid_kinds_manufactured", st.byKind)
-	run.Set("sync_deliveries_ending_on_a_shorter_chain", st.shorter)
-	run.Set("sync_frontier_dumps_compared_with_fresh_node", st.dumpsCompared)
-	run.Set("sync_historical_dumps_compared_with_fresh_node", st.histCompared)
-	run.Set("sync_real_momentums_per_abstract_element", unit)
-	run.Set("sync_tree_nodes_built", tree.builds)
-	run.Set("sync_follower_restarts", st.restarts)
-	run.Set("sync_local_dependent_blocks_pooled_before_a_delivery", st.localBlocks)
-	run.Set("sync_blocks_gossiped_before_their_momentum", st.gossiped)
+	run.Set(o.label+"sync_generated_transitions", total)
+	run.Set(o.label+"sync_behaviours_replayed", cnt)
+	run.Set(o.label+"sync_deliveries_replayed", st.deliveries)
+	run.Set(o.label+"sync_outcomes(spec->node)", st.byErr)
+	run.Set(o.label+"sync_invalid_kinds_manufactured", st.byKind)
+	run.Set(o.label+"sync_deliveries_ending_on_a_shorter_chain", st.shorter)
+	run.Set(o.label+"sync_frontier_dumps_compared_with_fresh_node", st.dumpsCompared)
+	run.Set(o.label+"sync_historical_dumps_compared_with_fresh_node", st.histCompared)
+	run.Set(o.label+"sync_real_momentums_per_abstract_element", unit)
+	run.Set(o.label+"sync_tree_nodes_built", tree.builds)
+	run.Set(o.label+"sync_follower_restarts", st.restarts)
+	run.Set(o.label+"sync_rival_blocks_pooled_before_a_delivery", st.rivals)
+	run.Set(o.label+"sync_local_dependent_blocks_pooled_before_a_delivery", st.localBlocks)
+	run.Set(o.label+"sync_blocks_gossiped_before_their_momentum", st.gossiped)
 	return st
 }
 
